@@ -28,6 +28,7 @@ def run(ctx):
         return
     ctx.run_harness(exes["h14"], ["--part", "cp"], shards=16)
     ctx.run_harness(exes["h14"], ["--part", "seq"], shards=16)
+    ctx.run_harness(exes["h14"], ["--part", "writer"], shards=16)
     ctx.run_harness(exes["h14"], ["--part", "long"], shards=8)
     ctx.run_harness(exes["h14asan"], ["--part", "bytes"], shards=16)
     ctx.run_harness(exes["h14"], ["--part", "bytes"], shards=16)
